@@ -183,6 +183,9 @@ func c16InputSchemas() []c16InputSchema {
 		{"nested-required", obj(c16Schema{"n": c16Schema{"type": "object", "properties": c16Schema{"x": c16Schema{"type": "integer", "minimum": c16Num(1)}}, "required": []any{"x"}}}, []any{"n"}, nil)},
 		{"nested-default-x", obj(c16Schema{"n": c16Schema{"type": "object", "properties": c16Schema{"x": c16Schema{"type": "integer", "minimum": c16Num(1), "default": c16Num(4)}}}}, nil, nil)},
 		{"nested-default-x+top-default-a", obj(c16Schema{"n": c16Schema{"type": "object", "properties": c16Schema{"x": c16Schema{"type": "integer", "minimum": c16Num(1), "default": c16Num(4)}}}, "a": c16Schema{"type": "integer", "default": c16Num(2)}}, nil, nil)},
+		// an optional nested object that has a defaulted member and a required one: leaving the object out
+		// materialises it for the default's sake - without its required member
+		{"nested-optional-default-x-required-y", obj(c16Schema{"n": c16Schema{"type": "object", "properties": c16Schema{"x": c16Schema{"type": "integer", "minimum": c16Num(1), "default": c16Num(4)}, "y": c16Schema{"type": "integer"}}, "required": []any{"y"}}, "a": intAB}, nil, nil)},
 		{"array-of-positive", obj(c16Schema{"l": c16Schema{"type": "array", "items": c16Schema{"type": "integer", "minimum": c16Num(1)}}}, nil, nil)},
 		{"closed-a-b", obj(c16Schema{"a": intAB, "b": c16Schema{"type": "boolean"}}, []any{"b"}, c16Schema{"additionalProperties": false})},
 		{"open-a-s", obj(c16Schema{"a": intAB, "s": c16Schema{"type": "string", "enum": []any{"x", "y"}}}, nil, c16Schema{"additionalProperties": true})},
@@ -317,6 +320,21 @@ func c16AddOutputTools(s *Server, plan map[string]*c16OutCase) {
 		}
 		return content(c), map[string]any{}, nil
 	})
+	// the same with a required member next to the defaulted one: an output that leaves "o" out gets
+	// it materialised for the default's sake, without its required member - not a valid output
+	nestedReqOut := c16Schema{"type": "object", "properties": c16Schema{
+		"o": c16Schema{"type": "object", "properties": c16Schema{"d": c16Schema{"type": "string", "default": "dflt"}, "k": c16Schema{"type": "integer"}}, "required": []any{"k"}},
+	}}
+	AddTool(s, &Tool{Name: "out-nested-default-required", OutputSchema: nestedReqOut}, func(ctx context.Context, r *CallToolRequest, in map[string]any) (*CallToolResult, map[string]any, error) {
+		c := pick("out-nested-default-required")
+		switch c.ret {
+		case "inner-complete":
+			return content(c), map[string]any{"o": map[string]any{"k": 1}}, nil
+		case "inner-empty":
+			return content(c), map[string]any{"o": map[string]any{}}, nil
+		}
+		return content(c), map[string]any{}, nil
+	})
 	// an object output schema without required members, and an output type that can hold any JSON value
 	loose := c16Schema{"type": "object", "properties": c16Schema{"unit": c16Schema{"type": "string", "default": "C"}}}
 	AddTool(s, &Tool{Name: "out-any-object-schema", OutputSchema: loose}, func(ctx context.Context, r *CallToolRequest, in map[string]any) (*CallToolResult, any, error) {
@@ -368,6 +386,7 @@ func c16OutCases() []*c16OutCase {
 	add("out-int", "42")
 	add("out-explicit", "valid", "valid-with-d", "too-big", "wrong-type", "missing-required", "nil")
 	add("out-nested-default", "inner-empty", "inner-set", "inner-bad", "outer-empty")
+	add("out-nested-default-required", "inner-complete", "inner-empty", "outer-empty")
 	add("out-any", "nil", "obj")
 	add("out-any-object-schema", "object", "string", "number", "bool", "array", "empty-array")
 	add("out-any-required", "valid", "nil")
@@ -415,6 +434,11 @@ func c16ExpectedOutput(c *c16OutCase) string {
 			return `{"o":{"d":"set"}}`
 		case "outer-empty":
 			return `{"o":{"d":"dflt"}}`
+		}
+		return "ERR"
+	case "out-nested-default-required":
+		if c.ret == "inner-complete" {
+			return `{"o":{"d":"dflt","k":1}}`
 		}
 		return "ERR"
 	case "out-any-required":
